@@ -68,6 +68,37 @@ NONDETERMINISTIC = {
     'datetime.datetime.utcnow', 'datetime.datetime.today', 'secrets.token_bytes',
 }
 
+# ambient process / thread state a codec result must not depend on (C16.E);
+# a dotted prefix matches the name and everything below it
+AMBIENT_STATE = (NONDETERMINISTIC - {'builtins.id', 'builtins.hash'}) | {
+    'decimal.getcontext', 'decimal.setcontext', 'decimal.localcontext',
+    'decimal.DefaultContext', 'decimal.BasicContext',
+    'decimal.ExtendedContext', 'locale', 'random', 'secrets', 'os.environ',
+    'os.getenv', 'os.putenv', 'os.getcwd', 'os.getpid', 'os.urandom',
+    'threading.local', 'threading.current_thread', 'threading.get_ident',
+    'threading.main_thread', 'threading.active_count', 'contextvars',
+    'sys.argv', 'sys.flags', 'sys.getrecursionlimit',
+    'sys.setrecursionlimit', 'sys.getdefaultencoding',
+    'sys.getfilesystemencoding', 'sys.modules', 'sys.path',
+    'time.time', 'time.time_ns', 'time.monotonic', 'time.perf_counter',
+    'time.process_time', 'time.localtime', 'time.mktime', 'time.tzset',
+    'time.timezone', 'time.altzone', 'time.daylight', 'time.tzname',
+    'datetime.datetime.now', 'datetime.datetime.today',
+    'datetime.datetime.utcnow', 'datetime.date.today', 'uuid.uuid1',
+    'uuid.uuid4', 'uuid.getnode', 'socket.gethostname', 'platform',
+    'gc', 'weakref', 'atexit', 'signal', 'functools.lru_cache',
+    'functools.cache', 'functools.cached_property',
+}
+
+
+def ambient(path):
+    if not isinstance(path, str):
+        return False
+    parts = path.split('.')
+    return any('.'.join(parts[:i]) in AMBIENT_STATE
+               for i in range(1, len(parts) + 1))
+
+
 MUTATING_METHODS = {
     'append', 'extend', 'insert', 'pop', 'remove', 'clear', 'sort',
     'reverse', 'update', 'setdefault', 'popitem', 'add', 'discard',
@@ -909,16 +940,27 @@ def call_method(interp, recv, name, args, kwargs, state, node):
         if t is None or t != {'str'}:
             interp.raise_pending(state, E('builtins.AttributeError'), node,
                                  '.encode on a value that may not be str')
+        errors = args[1] if len(args) > 1 else kwargs.get('errors',
+                                                          'strict')
         if isinstance(enc, str) and enc.lower().replace('_', '-') in \
                 ('utf-8', 'utf8'):
-            interp.raise_pending(state, E('builtins.UnicodeEncodeError'),
-                                 node, 'lone surrogates cannot be encoded')
-            return Sym('utf8', recv)
+            if errors == 'strict':
+                interp.raise_pending(
+                    state, E('builtins.UnicodeEncodeError'), node,
+                    'lone surrogates cannot be encoded')
+                return Sym('utf8', recv)
+            # a non-strict error handler emits bytes that a strict decoder
+            # does not map back to the same text
+            return Sym('utf8', recv, _t(errors))
         return Sym('encode', recv, _t(enc))
     if name == 'decode':
         enc = args[0] if args else kwargs.get('encoding', 'utf-8')
+        errors = args[1] if len(args) > 1 else kwargs.get('errors',
+                                                          'strict')
         if isinstance(enc, str) and enc.lower().replace('_', '-') in \
                 ('utf-8', 'utf8'):
+            if errors != 'strict':
+                return Sym('decode_utf8', recv, _t(errors))
             interp.raise_pending(state, E('builtins.UnicodeDecodeError'),
                                  node, 'invalid UTF-8',
                                  cond=T.not_(Sym('ok', 'utf8', recv)))
